@@ -100,6 +100,8 @@ type gen struct {
 	r      *rand.Rand
 	wide   bool
 	leaves []cval
+	hasDiv bool // a frag expression with a division: only its folded AST is replayed
+	noInline []int // leaves that must be passed as arguments in program A too
 }
 
 // types the generator aims at (mostly well-typed programs, some deliberately ill-typed)
@@ -194,8 +196,18 @@ func (g *gen) nary(depth int, o opinfo, kidw int) *E {
 			if o.lean == "add" {
 				// a - b is the operand Unary(Sub, b) of the Add list
 				k = &E{k: kUnary, op: "-", lop: "minus", kids: []*E{k}}
-			} else if o.lean == "mul" && g.wide {
-				k = &E{k: kUnary, op: "/", lop: "", kids: []*E{k}}
+			} else if o.lean == "mul" && (g.wide || g.r.Intn(2) == 0) {
+				// reciprocal operand: a / b is the operand Unary(Div, b) of the Mul list
+				if !g.wide {
+					// replayed fragment: the divisor is a leaf, and it stays a literal only when it
+					// is 1 or -1 (compile-time division must be exact for the integer model)
+					k = g.leafOf(wNum)
+					if k.text != "1" && k.text != "-1" {
+						g.noInline = append(g.noInline, k.leaf)
+					}
+				}
+				k = &E{k: kUnary, op: "/", lop: "div", kids: []*E{k}}
+				g.hasDiv = true
 			}
 		}
 		e.kids = append(e.kids, k)
@@ -625,6 +637,16 @@ func classifyAt(x *E, inline []bool) string {
 		case "|", "&":
 			return "fold-bitop-32bit-constant"
 		case "+", "*":
+			if x.op == "*" {
+				for _, k := range x.kids {
+					if k.k == kUnary && k.op == "/" {
+						// foldMul regroups the constant factors and divisors of a * / chain around
+						// the non-constant ones; decimal division is not exact, so e.g. 7 / 7 / x
+						// (run time 7 / (7 * x)) and its folded form 1 / x differ in the last digit
+						return "fold-reassoc-muldiv"
+					}
+				}
+			}
 			if hasInexactLeaf(x, inline) {
 				return "fold-reassoc-decimal"
 			}
@@ -645,6 +667,9 @@ func classify(prog string, leaves []string, a, b outcome, direct bool) string {
 		// int64 wrap-around of merged constants = C26).
 		if strings.Contains(prog, " | ") || strings.Contains(prog, " & ") {
 			return "fold-bitop-32bit-constant"
+		}
+		if strings.Contains(prog, " / ") {
+			return "fold-reassoc-muldiv"
 		}
 		for _, l := range leaves {
 			if inexact[l] {
@@ -703,7 +728,7 @@ func showConst(v core.Value) string {
 	return "?const:" + strings.ReplaceAll(v.String(), " ", "_")
 }
 
-var utoks = map[tok.Token]string{tok.Add: "plus", tok.Sub: "minus", tok.Not: "not", tok.BitNot: "bitnot", tok.LParen: "paren"}
+var utoks = map[tok.Token]string{tok.Add: "plus", tok.Sub: "minus", tok.Not: "not", tok.BitNot: "bitnot", tok.LParen: "paren", tok.Div: "div"}
 var btoks = map[tok.Token]string{tok.Is: "is", tok.Isnt: "isnt", tok.Lt: "lt", tok.Lte: "lte", tok.Gt: "gt", tok.Gte: "gte", tok.Mod: "mod"}
 var ntoks = map[tok.Token]string{tok.Add: "add", tok.Mul: "mul", tok.BitOr: "bitor", tok.BitAnd: "bitand", tok.BitXor: "bitxor", tok.Or: "or", tok.And: "and", tok.Cat: "cat"}
 
@@ -853,6 +878,7 @@ var pinned = []pin{
 	{"{0} * {1}", []string{"'a'", "0"}, []bool{false, true}},
 	{"{0} & {1}", []string{"'a'", "0"}, []bool{false, true}},
 	{"{0} * {1} * {2}", []string{".1", "3", "7"}, []bool{false, true, true}},
+	{"{0} / {1} / {2}", []string{"7", "7", "7"}, []bool{true, true, false}},
 }
 
 func runPinned(t *lib.Trace) {
@@ -962,6 +988,9 @@ func main() {
 				inline[l] = false
 			}
 		}
+		for _, l := range g.noInline {
+			inline[l] = false
+		}
 		params := make([]string, nl)
 		args := make([]core.Value, nl)
 		for j, c := range g.leaves {
@@ -1049,6 +1078,17 @@ func main() {
 				env.WriteString(" " + leanConst(c.text))
 			}
 			fa := foldedAst(progA)
+			if g.hasDiv {
+				// division is exact only where the int fast path applies: replay the folded AST when
+				// every folded constant is still an integer, never the values
+				if strings.Contains(fa, "?const") {
+					t.Count("frag:division-inexact-constant-not-replayed")
+				} else {
+					t.Q("fold "+la.String(), fa)
+					t.Count("frag:fold-with-division")
+				}
+				continue
+			}
 			t.Q("fold "+la.String(), fa)
 			t.Q("evf "+env.String()+" "+la.String(), showOutcome(a))
 			t.Q("ev "+env.String()+" "+lb.String(), showOutcome(b))
